@@ -15,6 +15,7 @@ theorem sstep_handed {α} (s : SCur α) (o : Op α) (rs : List α) (hr : s.res? 
   | exec _ => simp [Op.isExec] at h
   | fail => simp [Op.isExec] at h
   | setAs n => simp [sstep, Out.handed]
+  | pandas => simp [sstep, hr, Out.handed]
   | one =>
     simp only [sstep, hr, Out.handed]
     cases hg : rs[s.pos]? with
